@@ -9,7 +9,7 @@ from props.common import *
 from props import hashcommon as HC
 
 ID = 'C01'
-LEAN_PROOFS = []
+LEAN_PROOFS = ['Proofs.C01']
 GEN_ITEMS = ['Hashes']
 RULE = ('op lines `hash <alg> <msg> <bitlen|None>` over the ten algorithms: every byte length 0..2 blocks+2, every L mod 8 around the '
         'spill boundary (block-1-2*word bytes), block and two-block boundaries, 3-5 blocks seeded, L=None, L=0, L>8|M|, trailing data '
